@@ -4,6 +4,7 @@
    [StorageError] is the outcome of a call in which some storage operation failed. *)
 From Coq Require Import List NArith.
 Require Import MRecon MReconP.
+Require RetryP.
 Open Scope N_scope.
 
 (* A call that returns the storage error has not advanced the in-memory claims: no data block is newly counted as
@@ -18,4 +19,35 @@ Theorem c18_failed_call_keeps_bookkeeping :
   (used s' = used s \/ is_complete s' = true).
 Proof. exact (@failed_call_keeps_bookkeeping). Qed.
 
+(* Re-delivery after a failed call, on the instrumented in-memory storages (one transient fault: the failing operation has no
+   effect): for every matrix, state satisfying the stage invariant, block and fault position - if the call ends in the storage
+   error and has not reached the back substitution, then re-delivering the same block with no fault armed returns the very
+   outcome and bookkeeping of the fault-free call, and leaves the same data and matrix stores and the same parity blocks in
+   every cell whose pivot bit is set (a parity block left in a cell without pivot bit is never read: c18_junk_unobservable).
+   [RetryP.clear a] is [a] with the (already fired) fault disarmed. *)
+Theorem c18_retry_is_fault_free : forall P cap vbits s a idx b s1 a1,
+  RetryP.StageInv s ->
+  handle_block abs_sto P cap vbits s a idx b = (s1, a1, StorageError) -> is_complete s1 = false ->
+  forall sF aF oF, handle_block abs_sto P cap vbits s (RetryP.clear a) idx b = (sF, aF, oF) ->
+  exists aR, handle_block abs_sto P cap vbits s1 (RetryP.clear a1) idx b = (sF, aR, oF) /\
+             dat aR = dat aF /\ mat aR = mat aF /\ forall k, used sF k = true -> par aR k = par aF k.
+Proof. exact RetryP.retry_is_fault_free. Qed.
+
+(* the stage invariant ("no pivot bit before stage 2") holds initially and is kept by every call, whatever the storages do *)
+Theorem c18_stage_inv_init : forall n0 bs0, RetryP.StageInv (rinit n0 bs0).
+Proof. exact RetryP.stage_inv_init. Qed.
+Theorem c18_stage_inv_step : forall (St : Type) (I : msto St) P cap vbits s c idx b s' c' o,
+  handle_block I P cap vbits s c idx b = (s', c', o) -> RetryP.StageInv s -> RetryP.StageInv s'.
+Proof. exact (@RetryP.stage_inv_step). Qed.
+
+(* what a failed call can leave behind in the stores: nothing but a parity block in a cell without pivot bit *)
+Theorem c18_failed_call_effect : forall P cap vbits s a idx b s' a',
+  handle_block abs_sto P cap vbits s a idx b = (s', a', StorageError) -> is_complete s' = false ->
+  dat a' = dat a /\ mat a' = mat a /\ forall k, used s k = true -> par a' k = par a k.
+Proof. exact RetryP.failed_call_effect. Qed.
+
 Print Assumptions c18_failed_call_keeps_bookkeeping.
+Print Assumptions c18_retry_is_fault_free.
+Print Assumptions c18_stage_inv_init.
+Print Assumptions c18_stage_inv_step.
+Print Assumptions c18_failed_call_effect.
